@@ -104,9 +104,9 @@ def deadlockedSet (s : Sys L) (S : List Nat) : Bool :=
 
 def unfinished (s : Sys L) : Prop := ∃ (t : Nat) (th : Thread L), s[t]? = some th ∧ th.prog ≠ []
 
-/-- every thread of `s` satisfies the per-thread predicate `P held prog` -/
-def AllThreads (P : List L → List (Op L) → Prop) (s : Sys L) : Prop :=
-  ∀ (u : Nat) (th : Thread L), s[u]? = some th → P th.held th.prog
+/-- every thread `u` of `s` satisfies the per-thread predicate `P u held prog` -/
+def AllThreads (P : Nat → List L → List (Op L) → Prop) (s : Sys L) : Prop :=
+  ∀ (u : Nat) (th : Thread L), s[u]? = some th → P u th.held th.prog
 
 def allFinished (s : Sys L) : Bool := s.all fun (th : Thread L) => th.prog.isEmpty
 
@@ -120,6 +120,23 @@ def Ordered (lt : L → L → Prop) : List L → List (Op L) → Prop
   | _, [] => True
   | held, .acquire l :: rest => (∀ h ∈ held, lt h l) ∧ Ordered lt (l :: held) rest
   | held, .release l :: rest => Ordered lt (held.erase l) rest
+
+/-- Lock-order discipline with **thread-private locks**.  `pv l = some u` says that only thread `u`
+ever touches `l` (nobody else can wait for it or hold it).  Thread `u` may acquire `l` while holding
+`h` when `h` is `lt`-below `l`, *or* when `h` is private to `u` and is not `l` itself: a lock nobody
+else can wait for cannot be part of a wait cycle, whatever the order says.  Re-acquiring a held lock
+is never allowed (`lt` is irreflexive). -/
+def OrderedP (lt : L → L → Prop) (pv : L → Option Nat) (u : Nat) : List L → List (Op L) → Prop
+  | _, [] => True
+  | held, .acquire l :: rest =>
+      (pv l = none ∨ pv l = some u) ∧
+      (∀ h ∈ held, lt h l ∨ (pv h = some u ∧ h ≠ l)) ∧
+      OrderedP lt pv u (l :: held) rest
+  | held, .release l :: rest => OrderedP lt pv u (held.erase l) rest
+
+/-- the locks a thread holds are shared or its own -/
+def HeldOk (pv : L → Option Nat) (u : Nat) (held : List L) : Prop :=
+  ∀ h ∈ held, pv h = none ∨ pv h = some u
 
 /-- the program gives back everything: it ends holding nothing -/
 def Balanced : List L → List (Op L) → Prop
